@@ -433,8 +433,8 @@ pub fn spec() -> PropSpec {
             Family { name: "migration", f: fam_migration, weight: 15 },
             Family { name: "lossy-handshake", f: fam_lossy_handshake, weight: 20 },
         ],
-        quick_worlds: 60_000,
-        thorough_worlds: 900_000,
+        quick_worlds: 150_000,
+        thorough_worlds: 1_800_000,
         panic_is_violation: true,
         rule: "each world = a server endpoint with honest clients (big or small certificate chain, Retry on/off) plus drawn attacker actions: the genuine ClientHello re-protected under a fresh DCID and sent from addresses that never answer, in datagrams of 600..1455 bytes (around 1200 exactly), short-header datagrams of 5..1502 bytes with unknown connection IDs at drawn instants, a return path that is cut at a drawn instant so that only server timers fire, client migration; loss / duplication / reordering as usual; non-trivial = a fault or attack fired; distinct = distinct abstract-event signature",
         assumptions: vec![
